@@ -14,7 +14,7 @@ BUILD = "sudachi/src/dic/build/"
 def indexed_guards(body, name, where):
     """guards of the form `if e.should_index() && <atom> { return err }` on e.<name>"""
     out = []
-    for m in re.finditer(r"\bif\s+e\.should_index\(\)\s*&&\s*([^{};&]+?)\s*\{\s*return\s+ctx\.err\b", body):
+    for m in re.finditer(r"\bif\s+e\.should_index\(\)\s*&&\s*([^{};&]+?)\s*\{\s*return\s+[a-z_]+\.err\b", body):
         cond = re.sub(r"^\((.*)\)$", r"\1", m.group(1).strip())
         fake = "if %s { return ctx.err" % cond
         out += G.guards_of(fake, {"e." + name: "none"}, where)
@@ -88,11 +88,16 @@ def gen():
     if not re.search(r"self\.max_left\s*=\s*left\s*;\s*self\.max_right\s*=\s*right\s*;", mb):
         raise F.FactError("set_max_conn_sizes no longer stores (left, right) into (max_left, max_right)")
     wb = F.fn_body(t, "validate_wid", rel)
-    m = re.search(r"if\s+wid\.word\(\)\s*(>=|>)\s*max\s+as\s+u32\s*\{\s*return\s+Err", wb)
+    m = re.search(r"if\s+wid\.word\(\)\s*(>=|>)\s*(\w+)\s+as\s+u32\s*\{\s*return\s+Err", wb)
+    if not m:
+        # the same test written the other way round: `max as u32 <= wid.word()`
+        mt = re.search(r"if\s+(\w+)\s+as\s+u32\s*(<=|<)\s*wid\.word\(\)\s*\{\s*return\s+Err", wb)
+        if mt:
+            m = re.match(r"(>=|>) (\w+)", "%s %s" % ({"<=": ">=", "<": ">"}[mt.group(2)], mt.group(1)))
     if not m:
         raise F.FactError("validate_wid range check not recognised")
     out.append("Definition validate_wid_cmp : cmp := %s.\n" % G.CMP[m.group(1)])
-    if not re.search(r"let\s+max\s*=\s*match\s+wid\.dic\(\)\s*\{\s*0\s*=>\s*dic0_max,\s*1\s*=>\s*dic1_max,", wb):
+    if not re.search(r"let\s+%s\s*=\s*match\s+wid\.dic\(\)\s*\{\s*0\s*=>\s*dic0_max,\s*1\s*=>\s*dic1_max," % re.escape(m.group(2)), wb):
         raise F.FactError("validate_wid no longer selects dic0_max / dic1_max by wid.dic()")
     if not re.search(r"usize::MAX\s*=>\s*\(self\.entries\.len\(\),\s*0\),", b) or not re.search(r"x\s*=>\s*\(x,\s*self\.entries\.len\(\)\),", b):
         raise F.FactError("validate_entries: (max_0, max_1) selection not recognised")
@@ -104,10 +109,11 @@ def gen():
     t = no_tests(F.strip_comments(F.src(rel)))
     if not re.search(r"set_max_conn_sizes\(self\.conn\.left\(\),\s*self\.conn\.right\(\)\)", F.fn_body(t, "read_conn", rel)):
         raise F.FactError("read_conn no longer passes (conn.left(), conn.right()) to set_max_conn_sizes")
-    if not re.search(r"set_max_conn_sizes\(cm\.num_left\(\)\s+as\s+_,\s*cm\.num_right\(\)\s+as\s+_\)", F.fn_body(t, "new_user", rel)):
+    if not re.search(r"let\s+(\w+)\s*=\s*[\w.()]*\bconn_matrix\(\);.*set_max_conn_sizes\(\1\.num_left\(\)\s+as\s+_,\s*\1\.num_right\(\)\s+as\s+_\)", F.fn_body(t, "new_user", rel), flags=re.S):
         raise F.FactError("new_user no longer passes (num_left, num_right) to set_max_conn_sizes")
     cb = F.fn_body(t, "compile", rel)
-    order = [cb.find(x) for x in ("self.check_if_resolved()?", "self.lexicon.validate_entries()?", "self.header.write_to(w)?", "self.write_grammar(w)?", "self.write_lexicon(w, written)?")]
+    cb1 = re.sub(r"self\.write_lexicon\(w,\s*\w+\)\?", "self.write_lexicon(w, written)?", cb)
+    order = [cb1.find(x) for x in ("self.check_if_resolved()?", "self.lexicon.validate_entries()?", "self.header.write_to(w)?", "self.write_grammar(w)?", "self.write_lexicon(w, written)?")]
     build_bad = []
     if -1 in order or order != sorted(order):
         # kept out of FactError on purpose: the model still builds (for compile as it was written for) and the differential
@@ -116,7 +122,8 @@ def gen():
     rcb = F.fn_body(t, "read_conn", rel)
     i_set = rcb.find("set_max_conn_sizes(")
     m_early = re.search(r"\}\s*\?\s*;", rcb[:i_set]) if i_set >= 0 else None
-    m_late = re.search(r"\bresult\s*\?\s*;", rcb[i_set:]) if i_set >= 0 else None
+    m_res = re.search(r"let\s+(\w+)\s*=\s*match\s+data\.convert\(\)", rcb)
+    m_late = re.search(r"\b%s\s*\?\s*;" % re.escape(m_res.group(1)), rcb[i_set:]) if (i_set >= 0 and m_res) else None
     if i_set < 0 or (m_early is None) == (m_late is None):
         build_bad.append("DictBuilder::read_conn: where the read error is propagated relative to set_max_conn_sizes was not recognised")
     out.append("(* read_conn hands the buffer's dimensions to the lexicon even when reading failed (the buffer keeps new dimensions) *)\n")
@@ -134,7 +141,7 @@ def gen():
     # ---- parse.rs: list length guard, word id literal range
     rel = BUILD + "parse.rs"
     t = no_tests(F.strip_comments(F.src(rel)))
-    m = re.search(r"if\s+result\.len\(\)\s*(>=|>)\s*MAX_ARRAY_LEN\s*\{\s*return\s+Err", F.fn_body(t, "parse_slash_list", rel))
+    m = re.search(r"if\s+\w+\.len\(\)\s*(>=|>)\s*MAX_ARRAY_LEN\s*\{\s*return\s+Err", F.fn_body(t, "parse_slash_list", rel))
     if not m:
         raise F.FactError("parse_slash_list length guard not recognised")
     out.append("Definition slash_list_len_guard : guard := mkG CastNone %s (OConst %s).\n" % (G.CMP[m.group(1)], F.coq_int(F.find_const(BUILD + "mod.rs", "MAX_ARRAY_LEN"), "Z")))
@@ -144,26 +151,26 @@ def gen():
     out.append("Definition str_len_guard : guard := mkG CastNone %s (OConst %s).\n" % (G.CMP[m.group(1)], F.coq_int(F.find_const(BUILD + "mod.rs", "MAX_DIC_STRING_LEN", {"MAX_POS_IDS": F.find_const(BUILD + "mod.rs", "MAX_POS_IDS")}), "Z")))
     out.append("Definition WORD_MASK : Z := %s.\n" % F.coq_int(F.find_const("sudachi/src/dic/word_id.rs", "WORD_MASK"), "Z"))
     pb = F.fn_body(t, "parse_wordid", rel)
-    if not re.search(r'if\s+data\.starts_with\("U"\)\s*\{\s*let\s+wid\s*=\s*parse_wordid_raw\(&data\[1\.\.\]\);\s*wid\.map\(\|w\|\s*WordId::new\(1,\s*w\.word\(\)\)\)\s*\}\s*else\s*\{\s*parse_wordid_raw\(data\)', pb):
+    if not re.search(r'if\s+data\.starts_with\("U"\)\s*\{\s*let\s+(\w+)\s*=\s*parse_wordid_raw\(&data\[1\.\.\]\);\s*\1\.map\(\|(\w+)\|\s*WordId::new\(1,\s*\2\.word\(\)\)\)\s*\}\s*else\s*\{\s*parse_wordid_raw\(data\)', pb):
         raise F.FactError("parse_wordid has an unrecognised shape")
     # ---- primitives.rs: write_u32_array limit
     rel = BUILD + "primitives.rs"
     t = no_tests(F.strip_comments(F.src(rel)))
-    m = re.search(r"if\s+len\s*(>=|>)\s*([0-9]+)\s*\{\s*return\s+Err", F.fn_body(t, "write_u32_array", rel))
+    m = re.search(r"let\s+(\w+)\s*=\s*data\.len\(\);.*?if\s+\1\s*(>=|>)\s*([0-9]+)\s*\{\s*return\s+Err", F.fn_body(t, "write_u32_array", rel), flags=re.S)
     if not m:
         raise F.FactError("write_u32_array length guard not recognised")
-    out.append("Definition u32_array_len_guard : guard := mkG CastNone %s (OConst %s).\n" % (G.CMP[m.group(1)], m.group(2)))
+    out.append("Definition u32_array_len_guard : guard := mkG CastNone %s (OConst %s).\n" % (G.CMP[m.group(2)], m.group(3)))
     # ---- conn.rs
     rel = BUILD + "conn.rs"
     t = no_tests(F.strip_comments(F.src(rel)))
     rb = F.fn_body(t, "read", rel)
-    m = re.search(r"if\s+nread\s*==\s*0\s*\{\s*(todo!\(\)|return\s+[^;]*err\w*\(|return\s+Err)", rb)
+    m = re.search(r"let\s+(\w+)\s*=\s*reader\.read_line\(&mut\s+self\.line\)\?;\s*if\s+\1\s*==\s*0\s*\{\s*(todo!\(\)|return\s+[^;]*err\w*\(|return\s+Err)", rb)
     if not m:
         raise F.FactError("ConnBuffer::read: handling of an input without header not recognised")
-    out.append("Definition conn_empty_input_panics : bool := %s.\n" % ("true" if m.group(1).startswith("todo") else "false"))
+    out.append("Definition conn_empty_input_panics : bool := %s.\n" % ("true" if m.group(2).startswith("todo") else "false"))
     out.append(G.coq_list("conn_header_left_guards", G.guards_of(rb, {"left": "none"}, rel + ":read")))
     out.append(G.coq_list("conn_header_right_guards", G.guards_of(rb, {"right": "none"}, rel + ":read")))
-    if not re.search(r"let\s+size\s*=\s*left\s+as\s+usize\s*\*\s*right\s+as\s+usize\s*\*\s*2\s*;\s*self\.matrix\.resize\(size,\s*0\)", rb):
+    if not re.search(r"let\s+(\w+)\s*=\s*left\s+as\s+usize\s*\*\s*right\s+as\s+usize\s*\*\s*2\s*;\s*self\.matrix\.resize\(\1,\s*0\)", rb):
         raise F.FactError("ConnBuffer::read: matrix size is no longer left * right * 2")
     hb = F.fn_body(t, "parse_header", rel)
     lb = F.fn_body(t, "parse_line", rel)
@@ -174,7 +181,8 @@ def gen():
     out.append("Definition conn_header_fields : nat := %s.\nDefinition conn_line_fields : nat := %s.\n" % (mh.group(1), ml.group(1)))
     if len(re.findall(r"it_next\([^;]*parse_i16\)\?", hb)) != int(mh.group(1)) or len(re.findall(r"it_next\([^;]*parse_i16\)\?", lb)) != int(ml.group(1)):
         raise F.FactError("parse_header / parse_line: fields are no longer all parse_i16")
-    if not re.search(r"self\.write_elem\(left,\s*right,\s*cost\)", lb):
+    mf = re.findall(r'let\s+(\w+)\s*=\s*it_next\([^;]*?"(left|right|cost)"[^;]*parse_i16\)\?;', lb)
+    if [x[1] for x in mf] != ["left", "right", "cost"] or not re.search(r"self\.write_elem\(%s,\s*%s,\s*%s\)" % tuple(re.escape(x[0]) for x in mf), lb):
         raise F.FactError("parse_line no longer ends in write_elem(left, right, cost)")
     wb = F.fn_body(t, "write_elem", rel)
     out.append(G.coq_list("write_elem_left_guards", G.guards_of(wb, {"left": "none"}, rel + ":write_elem")))
@@ -258,7 +266,7 @@ def gen():
     if not re.search(r"tuple\(\(le_u64,\s*le_u64,\s*description_parser\)\)", F.fn_body(ht, "header_parser", rel)):
         hbad.append("header_parser is no longer (le_u64, le_u64, description_parser)")
     cbm = F.fn_body(no_tests(F.strip_comments(F.src(BUILD + "mod.rs"))), "compile", BUILD + "mod.rs")
-    if not re.search(r"let\s+mut\s+written\s*=\s*self\.header\.write_to\(w\)\?;\s*written\s*\+=\s*self\.write_grammar\(w\)\?;\s*self\.write_lexicon\(w,\s*written\)\?;", cbm):
+    if not re.search(r"let\s+mut\s+(\w+)\s*=\s*self\.header\.write_to\(w\)\?;\s*\1\s*\+=\s*self\.write_grammar\(w\)\?;\s*self\.write_lexicon\(w,\s*\1\)\?;", cbm):
         hbad.append("compile no longer feeds the size returned by header.write_to into the offsets")
     vers = {}
     for name in ("SYSTEM_DICT_VERSION_2", "USER_DICT_VERSION_3"):
